@@ -142,7 +142,7 @@ NAMESPACES = {'Lemmas.MiniPyFuel': 'Bridge.Py',
               'Lemmas.RegexMsgHandA': 'Bridge.RegexMsgHand', 'Lemmas.RegexMsgHandB': 'Bridge.RegexMsgHand',
               'Translated.HandParsersA': 'Bridge.Translated.HandParsers', 'Translated.HandParsersB': 'Bridge.Translated.HandParsers',
               'Translated.HandParsersC': 'Bridge.Translated.HandParsers', 'Translated.HandParsersD': 'Bridge.Translated.HandParsers',
-              'Translated.ThreadsClientHands': 'Bridge.Translated.ClientHands',
+              'Translated.ThreadsClientHands': 'Bridge.Translated.ClientHands', 'Translated.ThreadsClientG': 'Bridge.Translated.ClientG',
               'Translated.HandsPbn': 'Bridge.Translated.HandsPbn', 'Translated.HandsPbnClosed': 'Bridge.Translated.HandsPbn',
               # the theorem families about the translated THREAD programs live in their own namespaces
               'Translated.ThreadsMainA': 'Bridge.Translated.MainA', 'Translated.ThreadsMainB': 'Bridge.Translated.MainB',
